@@ -72,7 +72,8 @@ def driver_case(c, seeds):
     return ({"windows": c["windows"], "query": query_txt(c),
              "static": "".join("%s %s %s .\n" % tuple(iri(x) for x in t) for t in c["static_t"]),
              "policy": c["policy"], "evs": evs, "stop": bool(c.get("stop")), "seeds": seeds,
-             "coord": len(c["windows"]) > 1 or bool(c["static_p"]), "lockstep": can_lockstep(c)},
+             "coord": len(c["windows"]) > 1 or bool(c["static_p"]), "lockstep": can_lockstep(c),
+             "hold_coord": bool(c.get("hold_coord"))},
             {v: k for k, v in ids.items()})
 
 
@@ -369,6 +370,8 @@ def evaluate(ctx, binpath, cases, stream, nseeds, witness_ids=()):
         fired = {i for call in im["calls"] for i, _ in call["firings"]}
         if any(i_calls) and len(fired) == len(c["windows"]):
             ctx.nontrivial(json.dumps(c, sort_keys=True, default=list))
+        if c.get("hold_coord"):
+            st["lagging_coordinator_cases"] = st.get("lagging_coordinator_cases", 0) + 1
         for key in ("policy", "op"):
             st["%s_%s" % (key, c[key])] = st.get("%s_%s" % (key, c[key]), 0) + 1
         st["windows_%d" % len(c["windows"])] = st.get("windows_%d" % len(c["windows"]), 0) + 1
@@ -430,6 +433,8 @@ def run(ctx):
     ctx.sample(rnd[0])
     evaluate(ctx, binpath, rnd, "random", nseeds)
     lng = [gen_case(ctx.rng, nmax=60) for _ in range(n // 8)]
+    for i, c in enumerate(lng):          # every second long case: the coordinator lags behind until everything was pushed
+        c["hold_coord"] = i % 2 == 0
     evaluate(ctx, binpath, lng, "random_long", nseeds)
     finish(ctx)
 
